@@ -186,6 +186,16 @@ free_table(void)
  * area, the table's flags, the storage content of areas whose size stays) is still there, as it is when an
  * application changes its table and calls register_init() a second time */
 static bool init_attempted;
+static RegisterHandle ui_fail_at;
+static unsigned ui_calls;
+
+static int
+ui_cb(RegisterTable *t, RegisterHandle h, void *user)
+{
+    (void)t; (void)user;
+    ui_calls++;
+    return h == ui_fail_at ? -1 : 0;
+}
 
 static bool
 parse_table(const char *be, char *as, char *es, bool keep)
@@ -404,6 +414,15 @@ harness_op(int argc, char **argv)
         print_access(a);
         print_state();
         free(buf);
+    } else if (strcmp(op, "rt.userinit") == 0 && argc == 2) {
+        /* register_user_init() with a callback that reports failure for entry <k> (never, when k is beyond the table) and
+         * looks at nothing: the table afterwards is the table before */
+        ui_fail_at = (RegisterHandle)parse_u64(argv[1]);
+        ui_calls = 0;
+        RegisterAccess a = register_user_init(&table, ui_cb);
+        print_access(a);
+        printf(" calls=%u", ui_calls);
+        print_state();
     } else if (strcmp(op, "rt.hole") == 0 && argc == 3) {
         /* the hole query does not look at the initialised flag but at what register_init() counted: before the first
          * register_init() of a description there is nothing it could answer from */
